@@ -33,14 +33,14 @@ GENERIC_ASSUME = [
 ]
 
 PROPS = {
- 'C01': dict(level='proof', state=True, monitors={'C01'}, runs=std_runs([('all', False), ('fin', False), ('weak', False), ('faults', False)]),
+ 'C01': dict(level='proof', state=True, exhaustive=4, monitors={'C01'}, runs=std_runs([('all', False), ('fin', False), ('weak', False), ('faults', False)]),
              explanation='Safety core: the trace pass theorem (Pass.v) + machine correspondence with full state comparison (rc, tc, mark, flags, buffer order after every command) + canary/quarantine monitor on the real crate.',
              assumptions=GENERIC_ASSUME),
- 'C02': dict(level='proof', state=True, monitors={'C01', 'C11'}, runs=std_runs([('core', False), ('fin', False), ('all', False)]),
+ 'C02': dict(level='proof', state=True, exhaustive=3, monitors={'C01', 'C11'}, runs=std_runs([('core', False), ('fin', False), ('all', False)]),
              explanation='Completeness of the pass over the model + correspondence (events and state).', assumptions=GENERIC_ASSUME),
  'C03': dict(level='proof', state=False, monitors={'C03'}, runs=std_runs([('all', False), ('unwrap', False), ('faults', False)]),
              explanation='Lifecycle invariant over the model + allocator pairing/layout monitor on the real crate + layout grid.', assumptions=GENERIC_ASSUME),
- 'C04': dict(level='proof', state=False, monitors={'C03'}, runs=std_runs([('core', False), ('all', False), ('fin', False)]),
+ 'C04': dict(level='proof', state=False, exhaustive=3, monitors={'C03'}, runs=std_runs([('core', False), ('all', False), ('fin', False)]),
              explanation='Count invariant over the model; strong_count and last-owner reclamation compared on every program.', assumptions=GENERIC_ASSUME),
  'C05': dict(level='proof', state=True, monitors={'C05'}, runs=std_runs([('fin', False), ('all', False), ('faults', False)], extra_feats=('nofin', 'noweak')),
              explanation='Finalizer discipline over the model + per-object finalizer monitor on the real crate.', assumptions=GENERIC_ASSUME),
@@ -54,7 +54,7 @@ PROPS = {
              explanation='Weak/strong count exactness over the model + side-record pairing monitor.', assumptions=GENERIC_ASSUME),
  'C10': dict(level='proof', state=False, monitors={'C01', 'C03'}, runs=std_runs([('clean', False)], extra_feats=('nofin',)),
              explanation='Cleaner actions: at-most-once over the model + correspondence including action order.', assumptions=GENERIC_ASSUME),
- 'C11': dict(level='proof', state=True, monitors={'C11'}, runs=std_runs([('core', False), ('all', False), ('auto', True)]),
+ 'C11': dict(level='proof', state=True, exhaustive=3, monitors={'C11'}, runs=std_runs([('core', False), ('all', False), ('auto', True)]),
              explanation='Buffer/byte-count invariant over the model + buffer walk and allocator totals on the real crate.', assumptions=GENERIC_ASSUME),
  'C12': dict(level='proof', state=False, monitors={'C12', 'C07'}, runs=std_runs([('fin', False), ('faults', False), ('all', True)]),
              explanation='Flag discipline over the model (generated is_tracing formula) + flags sampled in every callback on the real crate.', assumptions=GENERIC_ASSUME),
